@@ -72,7 +72,8 @@ def gen_jobs(ctx):
             except Exception:
                 continue
             jobs.append({"kind": "same/" + e.name,
-                         "calls": [{"fn": e.name, "args": args, "kwargs": kw, "share": None if e.inplace_args else 0} for _ in range(8)],
+                         "calls": [{"fn": e.name, "args": args, "kwargs": kw, "share": None if e.inplace_args else 0,
+                                    "inplace": list(e.inplace_args)} for _ in range(8)],
                          "threads": 8, "rounds": 2, "reps": 25 if quick else 120})
     # (d) cold start: the first calls a fresh process ever makes are the concurrent ones (lazy initialisation of module state);
     #     functions that the source inventory lists as writers of module-level state get many more fresh processes
@@ -102,7 +103,7 @@ def gen_jobs(ctx):
                     a2, k2 = e.gen(rng) if i % 2 else (args, kw)
                 except Exception:
                     a2, k2 = args, kw
-                calls.append({"fn": e.name, "args": a2, "kwargs": k2, "share": None})
+                calls.append({"fn": e.name, "args": a2, "kwargs": k2, "share": None, "inplace": list(e.inplace_args)})
             jobs.append({"kind": "cold/" + e.name, "calls": calls, "threads": 16, "rounds": 1, "reps": 1, "cold": True, "switch": 1e-6})
     R.rshape = small_rshape
     old = R.rshape
@@ -121,7 +122,7 @@ def gen_jobs(ctx):
                         args, kw = e.gen(rng)
                     except Exception:
                         continue
-                    calls.append({"fn": e.name, "args": args, "kwargs": kw, "share": None})
+                    calls.append({"fn": e.name, "args": args, "kwargs": kw, "share": None, "inplace": list(e.inplace_args)})
                 if len(calls) >= 2:
                     jobs.append({"kind": "vary/" + e.name, "calls": calls, "threads": len(calls), "rounds": 3, "reps": 4 if quick else 12})
         R.rshape = big_rshape
@@ -147,7 +148,7 @@ def gen_jobs(ctx):
                     if share in shared_specs:
                         calls.append(dict(shared_specs[share]))
                         continue
-                c = {"fn": e.name, "args": args, "kwargs": kw, "share": share}
+                c = {"fn": e.name, "args": args, "kwargs": kw, "share": share, "inplace": list(e.inplace_args)}
                 if share is not None:
                     shared_specs[share] = c
                 calls.append(c)
